@@ -16,6 +16,8 @@ A *program* is a list of statements in SSA form (statement k defines variable k)
     {"op": "arith", "a": v, "fn": "add|subtract|multiply|divide|pow", "b": w | "scalar": k}
     {"op": "transform", "a": v, "func": "mul"|"seldrop"|"sel"|"take", "params": [...], "dim": ..., "axis": int, "fdim": d?}
     {"op": "transform", "a": v, "func": "lookup", "r": [w...], "params": [i...], ...}   (C14: func hands back the existing action r[i])
+    {"op": "map", "a": v, "fn": "keep", "static": spec}    (C14: static arguments of other types, see make_static)
+    {"op": "alias", "a": v, "how": "select"|"iselect"}     (C14: a.select({}) — documented to hand back the action itself)
 
 Nothing here depends on the Lean model.
 """
@@ -86,7 +88,48 @@ dupB = _make_scale(5)
 rlam1 = lambda *xs: xs[0]       # noqa: E731
 rlam2 = lambda *xs: xs[-1]      # noqa: E731
 
-CUSTOM = {"neg": neg, "affine": affine, "twice": twice, "wsum": wsum, "first": first, "minmax": minmax,
+def keep(x, *statics, **options):
+    """C14: a callable that takes any static arguments"""
+    return x
+
+
+class Config:
+    """C14: a user-defined object without __repr__ (its repr shows its address)"""
+
+    def __init__(self, level):
+        self.level = level
+
+
+# statics are created once per process (a configuration object, a weights array that a script passes to several products)
+_BIG_A = np.zeros(2000)
+_BIG_B = np.zeros(2000)
+_BIG_B[1000] = 1.0
+_CONFIGS = {}
+
+
+def make_static(spec):
+    """(args, kwargs) of a payload from a JSON description:
+    {"int": 3} | {"big": "A"|"B"} (2000-element arrays that differ at index 1000) | {"config": n} (one Config object per n and
+    process) | {"newconfig": n} (a new Config object per call) | {"kwdict": {...}} | {"kwlist": [...]} | {"nested": [..]}"""
+    kind, val = next(iter(spec.items()))
+    if kind == "int":
+        return ("input0", val), {}
+    if kind == "big":
+        return ("input0", _BIG_A if val == "A" else _BIG_B), {}
+    if kind == "config":
+        return ("input0", _CONFIGS.setdefault(val, Config(val))), {}
+    if kind == "newconfig":
+        return ("input0", Config(val)), {}
+    if kind == "kwdict":
+        return ("input0",), {"opts": dict(val)}
+    if kind == "kwlist":
+        return ("input0",), {"opts": list(val)}
+    if kind == "nested":
+        return ("input0", [list(x) if isinstance(x, list) else x for x in val]), {}
+    raise ValueError(spec)
+
+
+CUSTOM = {"keep": keep, "neg": neg, "affine": affine, "twice": twice, "wsum": wsum, "first": first, "minmax": minmax,
           "lam1": lam1, "lam2": lam2, "dupA": dupA, "dupB": dupB, "rlam1": rlam1, "rlam2": rlam2}
 
 
@@ -129,6 +172,9 @@ def exec_stmt(st, env):
     if op == "map":
         fn = CUSTOM[st["fn"]]
         payload = fl.Payload(fn, args=("input0", st["k"])) if st["fn"] == "affine" else fn
+        if "static" in st:
+            sargs, skw = make_static(st["static"])
+            payload = fl.Payload(fn, args=sargs, kwargs=skw)
         y = st.get("yields")
         return a.map(payload, yields=(y[0], list(y[1])) if y else None)
     if op == "reduce":
@@ -144,6 +190,8 @@ def exec_stmt(st, env):
         return a.concatenate(st["dim"], batch_size=st["bs"], keep_dim=st["keep"])
     if op == "flatten":
         return a.flatten(dim=st["dim"], axis=st["axis"])
+    if op == "alias":
+        return getattr(a, st["how"])({})
     if op in ("select", "iselect"):
         v = st["val"] if "val" in st else list(st["vals"])
         return getattr(a, op)({st["dim"]: v}, drop=st["drop"])
@@ -945,6 +993,9 @@ class Gen:
                 d = rng.choice(big)
                 n = sizes[d]
                 bs = rng.choice([0, 0, 1] + list(range(2, n + 3)))
+                rem1 = [b for b in range(2, n) if n % b == 1]
+                if rem1 and rng.random() < 0.3:
+                    bs = rng.choice(rem1)          # the last batch is a singleton
             name = rng.choice(NAMED)
             if name == "std" and not self.allow_float:
                 name = "mean"
